@@ -3,7 +3,7 @@ import vpl, json
 from concurrent.futures import ThreadPoolExecutor
 
 LEVEL = "proof"
-LIBS = ["CheckGroupLemmas.vo"]
+LIBS = ["CheckGroupLemmas.vo", "CheckGroupCyclic.vo"]
 
 def jobs(tier, seed):
     """independent harness processes: (part, shard, seed)"""
@@ -26,7 +26,7 @@ def run(res, tier, seed, replay):
                         "division below 2^20 and GMP above)",
                         "tmcg_mpz_shash is an arbitrary function of the byte string (hash oracle table printed by the harness); the Jacobi "
                         "symbol is an arbitrary function in check_group_qr_iff and satisfies Euler's criterion in C06_qr_generator_order",
-                        "cyclicity of the q-torsion (accepted elements are exactly the powers of g) is tested exhaustively for p < 2^12, not proved",
+                        "cyclicity of the q-torsion is proved (C06_qtorsion_is_cyclic) and additionally tested exhaustively for p < 2^12",
                         "GrothVSSHE is covered by the implementation-level oracle only (its CheckGroup is the commitment scheme's plus a size test)"]
     vpl.proof_stage(res, LIBS)
     exe = vpl.build_harness("c06")
